@@ -39,8 +39,9 @@ type Driver struct {
 	K    *simkernel.Kernel
 	G    *forwarder.Gtp5g
 	Gtpu *net.UDPConn
-	wg   *sync.WaitGroup
-	own  sync.WaitGroup
+	wg     *sync.WaitGroup
+	own    sync.WaitGroup
+	detach sync.Once
 }
 
 type Opts struct {
@@ -89,8 +90,14 @@ func NewDriver(o Opts) (*Driver, error) {
 
 // Close shuts the driver down: handlers are popped from the shared mux before
 // any descriptor is closed.
+// Detach does what the production driver's Close() does to the periodic
+// server and the netlink listener (once).
+func (d *Driver) Detach() {
+	d.detach.Do(func() { d.G.VerifClose() })
+}
+
 func (d *Driver) Close() error {
-	d.G.VerifClose()
+	d.Detach()
 	var err error
 	if d.wg == &d.own {
 		done := make(chan struct{})
